@@ -513,3 +513,96 @@ Proof.
     + rewrite HPeq in *. apply arity_mk; [assumption|assumption|intros Hx; exfalso; exact (Hno1 Hx)|].
       rewrite El. exact I.
 Qed.
+
+(* ------------------------------------------------------------------ restriction-bisulfite *)
+Lemma emit_all_set_extra e ins rid recs mk :
+  map (set_extra e) (emit_all ins rid recs mk) = emit_all ins rid recs (fun s q => set_extra e (mk s q)).
+Proof. apply emit_all_map. Qed.
+
+Theorem rb_spec L R lookup recs out P X :
+  positions_rb L R = Some (P, X) ->
+  demux_rb L R lookup recs = Accept out ->
+  expected_rb P X lookup recs = Some out /\ length recs = 2%nat.
+Proof.
+  unfold positions_rb. intros HP H.
+  destruct (negb _) eqn:Eok in HP; [discriminate|]. apply negb_false_iff in Eok.
+  destruct (c_rpRead L) eqn:Erp; [discriminate|].
+  match type of HP with (match ?x with _ => _ end) = _ => destruct x as [P'|] eqn:EP; [|discriminate] end.
+  inversion HP; subst P' X. clear HP.
+  destruct (positions_c_inv _ _ _ EP) as (ins & primer & lig & Hbm & Hbs & Hbl & Humi & Hins & Hlen & Hpr & Hlig & HPeq).
+  cbn [c_bcRead c_bcStart c_bcLength c_umiRead c_umiStart c_umiLength c_rpRead c_rpSlice c_capture w_lig] in *.
+  subst primer lig.
+  split_andb.
+  unfold demux_rb in H.
+  destruct (negb _) eqn:En in H; [discriminate|]. apply negb_false_iff in En.
+  assert (Hn : length recs = 2%nat) by lia.
+  split; [|assumption].
+  apply bind_accept in H. destruct H as (rb & Hrb & H).
+  apply idx_or_raise_accept in Hrb; [|unfold okm in Hbm; lia].
+  rewrite !(pyslice_range _ _ _ Hbs Hbl) in H.
+  assert (Hraw : sub (Z.to_nat (c_bcStart L)) (Z.to_nat (c_bcLength L)) (fst rb)
+                 = cat_seq recs [(c_bcRead L, c_bcStart L, c_bcLength L)]).
+  { rewrite cat_seq_1. unfold reg_seq. rewrite (mate_seq_nth _ _ rb); [reflexivity|unfold okm in Hbm; lia|assumption]. }
+  assert (Hrawq : sub (Z.to_nat (c_bcStart L)) (Z.to_nat (c_bcLength L)) (snd rb)
+                 = reg_qual recs (c_bcRead L, c_bcStart L, c_bcLength L)).
+  { unfold reg_qual. rewrite (mate_qual_nth _ _ rb); [reflexivity|unfold okm in Hbm; lia|assumption]. }
+  rewrite Hraw in H.
+  destruct (lookup _) as [[bi BC]|] eqn:Elk; [|discriminate].
+  apply bind_accept in H. destruct H as (umi & Humi' & H).
+  apply bind_accept in H. destruct H as (enz & Henz & H).
+  apply bind_accept in H. destruct H as (ispcr & His & H).
+  apply bind_accept in H. destruct H as (RQ & HRQ & H).
+  apply bind_accept in H. destruct H as (QT & HQT & H).
+  apply enc_or_raise_accept in HQT. rewrite Hrawq in HQT.
+  destruct (negb (Nat.eqb (length BC) _)) in H; [discriminate|].
+  destruct enz as [[es eqraw]|]; [|discriminate].
+  apply bind_accept in H. destruct H as (eq_ & Heq & H).
+  apply enc_or_raise_accept in Heq.
+  destruct ispcr as [is_|]; [|discriminate].
+  apply (capture_all_spec _ _ _ _ _ _ Hins) in H.
+  (* enzyme, ISPCR *)
+  assert (Eel : (rb_enzLength R =? 0) = false) by lia. rewrite Eel in Henz.
+  apply bind_accept in Henz. destruct Henz as (re & Hre & Henz). inversion Henz; subst es eqraw. clear Henz.
+  apply idx_or_raise_accept in Hre; [|lia].
+  assert (Eil : (rb_isLength R =? 0) = false) by lia. rewrite Eil in His.
+  apply bind_accept in His. destruct His as (ri & Hri & His). inversion His; subst is_. clear His.
+  apply idx_or_raise_accept in Hri; [|lia].
+  rewrite !(pyslice_range _ _ (fst re)) in H by lia.
+  rewrite !(pyslice_range _ _ (snd re)) in Heq by lia.
+  rewrite !(pyslice_range _ _ (fst ri)) in H by lia.
+  assert (He1 : sub (Z.to_nat (rb_enzStart R)) (Z.to_nat (rb_enzLength R)) (fst re)
+                = reg_seq recs (rb_enzRead R, rb_enzStart R, rb_enzLength R)).
+  { unfold reg_seq. rewrite (mate_seq_nth _ _ re); [reflexivity|lia|assumption]. }
+  assert (He2 : sub (Z.to_nat (rb_enzStart R)) (Z.to_nat (rb_enzLength R)) (snd re)
+                = reg_qual recs (rb_enzRead R, rb_enzStart R, rb_enzLength R)).
+  { unfold reg_qual. rewrite (mate_qual_nth _ _ re); [reflexivity|lia|assumption]. }
+  assert (Hi1 : sub (Z.to_nat (rb_isStart R)) (Z.to_nat (rb_isLength R)) (fst ri)
+                = reg_seq recs (rb_isRead R, rb_isStart R, rb_isLength R)).
+  { unfold reg_seq. rewrite (mate_seq_nth _ _ ri); [reflexivity|lia|assumption]. }
+  rewrite He1, Hi1 in H. rewrite He2 in Heq. subst QT eq_.
+  unfold expected_rb.
+  assert (Hlk : lookup (cat_seq recs (p_bc P)) = Some (bi, BC)).
+  { rewrite HPeq. unfold mk_playout. cbn [p_bc]. assumption. }
+  rewrite (expected_unfold _ _ _ _ _ _ Hlk). f_equal. rewrite emit_all_set_extra. subst out.
+  rewrite HPeq. unfold mk_playout. cbn [p_bc p_umi p_primer p_lig p_insert option_map].
+  unfold extra_value, set_extra. cbn [map fst snd Z.eqb Pos.eqb orb o_seq o_qual o_bc o_BC o_bi o_RX o_RQ o_rS o_lh o_lq].
+  (* UMI *)
+  destruct (c_umiLength L =? 0) eqn:Eul.
+  - inversion Humi'; subst. inversion HRQ; subst. cbn [is_nil negb option_map].
+    apply emit_all_ext. intros s q. reflexivity.
+  - destruct Humi as [Hz|(Hum & Hus & Hul)]; [lia|].
+    apply bind_accept in Humi'. destruct Humi' as (ru & Hru & Hu). inversion Hu; subst. clear Hu.
+    apply idx_or_raise_accept in Hru; [|unfold okm in Hum; lia].
+    apply bind_accept in HRQ. destruct HRQ as (rq & Hrq & HRQ). inversion HRQ; subst. clear HRQ.
+    apply enc_or_raise_accept in Hrq. subst rq.
+    rewrite !(pyslice_range _ _ _ Hus) by lia.
+    cbn [is_nil negb option_map fst].
+    assert (Hu1 : sub (Z.to_nat (c_umiStart L)) (Z.to_nat (c_umiLength L)) (fst ru)
+                  = cat_seq recs [(c_umiRead L, c_umiStart L, c_umiLength L)]).
+    { rewrite cat_seq_1. unfold reg_seq. rewrite (mate_seq_nth _ _ ru); [reflexivity|unfold okm in Hum; lia|assumption]. }
+    assert (Hu2 : sub (Z.to_nat (c_umiStart L)) (Z.to_nat (c_umiLength L)) (snd ru)
+                  = cat_qual recs [(c_umiRead L, c_umiStart L, c_umiLength L)]).
+    { rewrite cat_qual_1. unfold reg_qual. rewrite (mate_qual_nth _ _ ru); [reflexivity|unfold okm in Hum; lia|assumption]. }
+    rewrite Hu1, Hu2.
+    apply emit_all_ext. intros s q. reflexivity.
+Qed.
